@@ -188,6 +188,26 @@ def fam_single(tier, seed):
                 cases += _pack("sa%d" % base, "single", base, single_fields_all(base) + single_fields_bool(base))
             else:
                 cases += _pack("sg%d" % base, "single", base, single_fields_grid(base))
+    # fields whose (lowest bit, width) or (lowest bit, highest bit) pairs concatenate to the same decimal string -- e.g. (1,12) and (11,2) --
+    # declared in the same struct, in both orders (names or keys derived from the numbers without a separator collide)
+    for base in (64, 128):
+        pairs = []
+        cands = [(lo, w) for lo in range(base) for w in range(1, base - lo + 1)]
+        for conv in ("w", "hi"):
+            by = {}
+            for lo, w in cands:
+                key = "%d%d" % (lo, w if conv == "w" else lo + w - 1)
+                by.setdefault(key, []).append((lo, w))
+            for key, lst in sorted(by.items()):
+                if len(lst) > 1:
+                    pairs.append(lst[:2])
+        fs = []
+        for k, pr in enumerate(pairs):
+            for (lo, w) in (pr if k % 2 == 0 else reversed(pr)):
+                fs.append(uint_field("x", [(lo, lo + w - 1)]))
+        if tier == "quick":
+            fs = fs[:24 * 12]
+        cases += _pack("sc%d" % base, "single", base, fs, per=24)
     # seeded: random arbitrary bases + random placements on all kinds of bases
     arb = [n for n in all_arb_widths() if n not in ARB_FIXED]
     nseed = 6 if tier == "quick" else 12
@@ -876,6 +896,10 @@ def handwritten_mixed():
     out.append(bitfield_case("mh_self6", "mixed", 64, [uint_field("a", [(0, 0), (0, 63)], access="r"), bool_field("b", 63)], name="Reg", tags=["self-overlap"]))
     out.append(bitfield_case("mh_self7", "mixed", 128, [uint_field("a", [(127, 127), (120, 127)])], name="Reg", tags=["self-overlap"]))
     out.append(bitfield_case("mh_self8", "mixed", 24, [uint_field("a", [(16, 23), (23, 23), (0, 3)])], name="Reg", tags=["self-overlap"]))
+    # a self-overlapping list whose range lengths add up to the storage width, next to an unrelated field
+    out.append(bitfield_case("mh_self9", "mixed", 16, [uint_field("a", [(0, 7), (4, 11)]), uint_field("other", [(12, 15)])], name="Reg", tags=["self-overlap"]))
+    out.append(bitfield_case("mh_self10", "mixed", 8, [uint_field("a", [(0, 3), (2, 5)]), uint_field("other", [(6, 7)])], name="Reg", tags=["self-overlap"]))
+    out.append(bitfield_case("mh_self11", "mixed", 64, [uint_field("a", [(8, 39), (24, 55)]), uint_field("lo", [(0, 7)]), uint_field("hi", [(56, 63)])], default=default_spec(0), name="Reg", tags=["self-overlap"]))
     # decimal literals with leading zeros are decimal (010 == 10) in positions, strides and defaults
     f1 = dict(uint_field("a", [(10, 17)]), attr_text="#[bits(010..=017, rw)]")
     f2 = dict(bool_field("b", 20), attr_text="#[bit(020, rw)]")
